@@ -1121,6 +1121,8 @@ class Interp:
                     if nm in o.fields:
                         return o.fields[nm]
                 if any(x for k_ in self.repo.mro(o.cls) for x in k_.ext_bases if x != "object"):
+                    if ("method:" + name) in self.hooks:
+                        return ("bound", b, name)     # a method of an external base class the rule wants to observe
                     return ("fn", "inherited." + name, [b])
             return ("unset", name)
         if k == "node":
@@ -1491,6 +1493,12 @@ class Interp:
             # and the call is recorded (dispatcher / protocol / manager calls are effects some rules look at)
             recv[2].extend(list(args) + list(kwargs.values()))
             self.emit("CALL", recv[1] + "." + name, list(args))
+            h = self.hooks.get("ext:" + recv[1] + "." + name)
+            if h is not None:
+                # the environment's reaction to this call (e.g. a dispatcher calling back synchronously)
+                r = h(self, recv, args, kwargs, env, depth, e)
+                if r is not None:
+                    return r
         return ("fn", name, [recv] + list(args) + list(kwargs.values()))
 
 
